@@ -6,10 +6,10 @@ use crate::gen::{self, RandCfg};
 use serde_json::json;
 
 pub fn prop(caps: bool) -> DiffRef {
-    DiffRef { caps, allow_cond: false, cond_focus: false, omit_empty_no: false }
+    DiffRef { caps, allow_cond: false, cond_focus: false, omit_empty_no: false, only_pos0: false }
 }
 pub fn prop_cond() -> DiffRef {
-    DiffRef { caps: true, allow_cond: true, cond_focus: true, omit_empty_no: false }
+    DiffRef { caps: true, allow_cond: true, cond_focus: true, omit_empty_no: false, only_pos0: false }
 }
 
 pub fn stage<P: PatProp>(ctx: &RunCtx, o: &mut Outcome, p: &P, name: &str, pats: &[crate::ast::Node], texts: &[String]) -> bool {
@@ -63,6 +63,16 @@ pub fn run(ctx: &RunCtx, caps: bool) -> Outcome {
     if !stage(ctx, &mut o, &p, &format!("unicode/line-anchor leaves N<={}", uni_n), &upats, &utexts) {
         return o;
     }
+    // texts with characters on the UTF-8 length-class boundaries
+    {
+        let mut small = space(&gen::core_cfg(), 3, false);
+        small.extend(space(&gen::uni_cfg(), 3, false));
+        small.extend(product_space(false, 1));
+        let small = gen::dedup_by_print(small);
+        if !stage(ctx, &mut o, &p, "small patterns x UTF-8 edge texts", &small, &gen::edge_texts()) {
+            return o;
+        }
+    }
     let prods = product_space(false, 2);
     let ptexts = {
         let mut t = gen::texts(&['a', 'b', 'c'], 4);
@@ -71,6 +81,15 @@ pub fn run(ctx: &RunCtx, caps: bool) -> Outcome {
     };
     if !stage(ctx, &mut o, &p, "context x filler depth 2", &prods, &ptexts) {
         return o;
+    }
+    // long texts (many loop iterations, deep branch stacks and long undo logs), offset 0 only
+    {
+        let long: Vec<String> = vec!["a".repeat(32) + "b", "a".repeat(24), "ab".repeat(12), "a".repeat(21) + "-", "b".to_string() + &"a".repeat(25)];
+        let lp = DiffRef { only_pos0: true, ..prop(caps) };
+        let loops: Vec<_> = prods.iter().filter(|n| n.any(|x| matches!(x, crate::ast::Node::Repeat(_, _, None, _)))).cloned().collect();
+        if !stage(ctx, &mut o, &lp, "context x filler with unbounded loops x long texts (offset 0)", &loops, &long) {
+            return o;
+        }
     }
     if !quick {
         // deeper texts for the small patterns
